@@ -38,9 +38,11 @@ mod c13_headers;
 mod c18_buffer;
 #[cfg(all(kani, feature = "c18_ffi"))]
 mod c18_ffi;
-#[cfg(all(kani, feature = "c01_router"))]
+#[cfg(all(kani, any(feature = "c01_router", feature = "c02_layers")))]
 mod c01_router;
 #[cfg(all(kani, feature = "c03_stage"))]
 mod c03_stage;
 #[cfg(all(kani, feature = "c05_merge"))]
 mod c05_merge;
+#[cfg(all(kani, feature = "c02_layers"))]
+mod c02_layers;
